@@ -43,6 +43,41 @@ func TestVerifC01(t *testing.T) {
 			"a full audit compares Get of every key of the key space and a forward+backward scan of a fresh iterator with the model.", nil)
 }
 
+// C01, second deck: layered LSMs. Automatic compactions are off and the base
+// level is forced high (LBaseMaxBytes = 1), so that ingested tables stack up
+// over several levels (L6, L5, L4, ...) with boundaries that coincide (a range
+// tombstone ending exactly at a point key of a deeper table, a table's largest
+// key equal to the next one's smallest); flushes and manual compactions of
+// narrow ranges then have to decide, level by level, which tombstones may be
+// dropped. Every step is followed by a full audit.
+func TestVerifC01Layers(t *testing.T) {
+	k := Knobs{Name: "C01L", Units: 70, SmallKeySpace: true, RangeKeys: true, Batches: true, Maint: true, Ingest: true, IngestHeavy: true, Excise: true,
+		AuditEvery: 2, NoAutoCompactionsPct: 100}
+	R := vcommon.NewReport("C01", "layers")
+	defer R.Finish(t)
+	R.Rule("Layered-LSM histories: automatic compactions disabled, LBaseMaxBytes=1 (level multiplier 2, 3 or 10), ingest-heavy (small tables of points, point and " +
+		"range tombstones and range keys whose bounds are drawn from a 4-7 letter key space so that boundaries coincide across levels), interleaved with " +
+		"batches, flushes and manual compactions of narrow ranges; a full audit (Get of every key + forward and backward scan of a fresh iterator " +
+		"against the model) runs after every second step and around every maintenance action. distinct_nontrivial counts distinct (history, LSM shape) pairs; " +
+		"the counter histories_with_3_or_more_populated_levels_below_L0 says how many histories reached a deep layering.")
+	n := vcommon.Scale(300, 6000)
+	R.Cases(n, func(i int, rng *rand.Rand) {
+		r := NewRunFS(R, "C01", k, i, rng, nil, func(r *Run) {
+			r.Cfg.LBaseMaxBytes = 1
+			r.Cfg.FlushGate = false
+			r.Cfg.MemTableSize = 256 << 10
+			if r.Cfg.TargetFileSize > 4<<10 {
+				r.Cfg.TargetFileSize = 1 << 10
+			}
+		})
+		r.Execute()
+		R.Eval(1)
+		if r.deepest >= 3 {
+			R.Count("histories_with_3_or_more_populated_levels_below_L0", 1)
+		}
+	})
+}
+
 // C02: iterator positioning matches the model for every op sequence.
 func TestVerifC02(t *testing.T) {
 	k := Knobs{Name: "C02", Units: 110, RangeKeys: true, Iters: true, Limits: true, Masking: true, Snapshots: true, Maint: true, Ingest: true,
